@@ -32,6 +32,9 @@ type c15Input struct {
 	// Mixed (api write): the peer takes the first part of the first record with a short Read, then a whole record
 	// with ReadFrom, then the rest with Read: each call returns its own bytes
 	Mixed bool `json:"mixed,omitempty"`
+	// SeqBase: the sender's record sequence number is moved to this value before its first application write
+	// (hook VerifSetWriteSeq): long-lived connections, every byte of the 48-bit field in use
+	SeqBase uint64 `json:"seq_base,omitempty"`
 }
 
 func c15Mode(suite uint16) string {
@@ -105,6 +108,9 @@ func c15AddCase(out *emit.Out, scenario string, in c15Input) {
 			}
 			if id == sender {
 				hsSizes[id] = append([]int(nil), e.Sizes...)
+				if in.SeqBase != 0 {
+					c.VerifSetWriteSeq(in.SeqBase)
+				}
 				for i, n := range in.Sizes {
 					p := bytes.Repeat([]byte{byte(i + 1)}, n)
 					for j := range p {
@@ -363,6 +369,13 @@ func runC15(p params) error {
 		}
 		for _, rb := range []int{1, 100, 500} {
 			c15AddCase(out, "write", c15Input{PMTU: pm, Suite: su, Sizes: []int{mx, 3*mx + 7, 1, 0, 200}, API: "write", Dir: []string{"c2s", "s2c"}[(i+rb)%2], ReadBuf: rb})
+		}
+	}
+	// long-lived connections: the sender's sequence number crosses every byte boundary of the 48-bit field
+	for i, base := range []uint64{253, 65533, 1<<24 - 3, 1<<32 - 3, 1<<40 - 3, 1<<48 - 10} {
+		for k, api := range []string{"writeto", "write"} {
+			su := suites[(i+2*k)%4]
+			c15AddCase(out, "high-sequence-numbers", c15Input{PMTU: 1400, Suite: su, Sizes: []int{5, 6, 700, 8, 9, 10}, API: api, Dir: []string{"c2s", "s2c"}[(i+k)%2], SeqBase: base})
 		}
 	}
 	return out.Finish()
